@@ -17,10 +17,10 @@ import tempfile
 from fractions import Fraction
 
 from .. import common as cm
-from ..translate import TranslationError, get_function
+from ..translate import TranslationError, get_function, strip_doc
 
 PROP = 'C19'
-GENERATED = ['LogTriggers']
+GENERATED = ['LogTriggers', 'LogSource']
 
 # ----------------------------------------------------------------------------------------
 # translator
@@ -356,11 +356,483 @@ def extract_constants(src: str) -> dict:
         raise TranslationError('flatten: the merge loop skips runs other than by `if thermo is None: continue`')
     out['first_keep_op'] = first
     out['last_keep_op'] = last
+    # ---- signatures and defaults of the public entry points
+    def sig(fn, want_names):
+        a = fn.args
+        names = [x.arg for x in a.args]
+        if names != want_names or a.vararg or a.kwarg or a.kwonlyargs or a.posonlyargs:
+            raise TranslationError(f'{fn.name}: parameters {names}, expected {want_names}')
+        defaults = [None] * (len(names) - len(a.defaults)) + list(a.defaults)
+        return dict(zip(names, defaults))
+
+    d = sig(read, ['self', 'log_info', 'append'])
+    if d['log_info'] is not None or not (isinstance(d['append'], ast.Constant) and isinstance(d['append'].value, bool)):
+        raise TranslationError('Log.read: `log_info` must be required and `append` default to a bool literal')
+    out['read_append_default'] = d['append'].value
+    d = sig(fl, ['self', 'style', 'firstindex', 'lastindex'])
+    if not (isinstance(d['style'], ast.Constant) and isinstance(d['style'].value, str)):
+        raise TranslationError('Log.flatten: default of `style` is not a string literal')
+    for nm in ('firstindex', 'lastindex'):
+        if not (isinstance(d[nm], ast.Constant) and d[nm].value is None):
+            raise TranslationError(f'Log.flatten: default of `{nm}` is not None')
+    out['flatten_style_default'] = d['style'].value
+    tree = ast.parse(src)
+    cls = {n.name: n for n in tree.body if isinstance(n, ast.ClassDef)}
+    if 'Log' not in cls or 'Simulation' not in cls:
+        raise TranslationError('classes Log / Simulation not found at module level')
+    linit = [n for n in cls['Log'].body if isinstance(n, ast.FunctionDef) and n.name == '__init__']
+    if len(linit) != 1:
+        raise TranslationError('Log.__init__ not found')
+    d = sig(linit[0], ['self', 'log_info'])
+    if not (isinstance(d['log_info'], ast.Constant) and d['log_info'].value is None):
+        raise TranslationError('Log.__init__: default of `log_info` is not None')
+    body = strip_doc(linit[0].body)
+    want_init = {'self.__simulations': '[]', 'self.__lammps_version': 'None', 'self.__lammps_date': 'None'}
+    seen = {}
+    reads = None
+    for st in body:
+        if isinstance(st, ast.Assign) and len(st.targets) == 1 and ast.unparse(st.targets[0]) in want_init:
+            seen[ast.unparse(st.targets[0])] = ast.unparse(st.value)
+        elif isinstance(st, ast.If) and ast.unparse(st.test) == 'log_info is not None' and not st.orelse \
+                and len(st.body) == 1 and ast.unparse(st.body[0]) == 'self.read(log_info)' and seen == want_init:
+            reads = True
+        else:
+            raise TranslationError(f'Log.__init__: unexpected statement `{ast.unparse(st)[:80]}`')
+    if seen != want_init:
+        raise TranslationError('Log.__init__ does not start from [] / None / None')
+    out['ctor_reads'] = bool(reads)
     return out
 
 
+# ----------------------------------------------------------------------------------------
+# translator, part 2: the statements of Log.py as Lean definitions (Generated/LogSource.lean); Proofs/C19_Source.lean
+# proves each of them equal to the hand model (gen_…_eq_model) or pins the normalised statements (gen_…_pinned)
+# ----------------------------------------------------------------------------------------
+SCAN_LISTS = {'thermo_headers': 'thermoHeaders', 'thermo_footers': 'thermoFooters',
+              'performance_headers': 'perfHeaders', 'performance_simulations': 'perfSims',
+              'performance_footers': 'perfFooters'}
+TRIGGER_MODEL = {'thermo_start_trigger': 'thermoStart', 'thermo_end_trigger': 'thermoEnd',
+                 'performance_start_trigger': 'perfStart', 'performance_start_trigger_old_version': 'perfStartOld',
+                 'performance_end_trigger': 'perfEnd'}
+
+
+def _int_lit(v):
+    return str(v) if v >= 0 else f'({v})'
+
+
+def _scan_int(e):
+    """integer expressions of the bookkeeping: i, len(<list>), <int literal>, a + b, a - b  (as Lean `Int`)."""
+    if isinstance(e, ast.Name) and e.id == 'i':
+        return '(s.i : Int)'
+    if isinstance(e, ast.Constant) and isinstance(e.value, int) and not isinstance(e.value, bool):
+        return _int_lit(e.value)
+    if isinstance(e, ast.Call) and isinstance(e.func, ast.Name) and e.func.id == 'len' and len(e.args) == 1 \
+            and not e.keywords and isinstance(e.args[0], ast.Name) and e.args[0].id in SCAN_LISTS:
+        return f'(s.{SCAN_LISTS[e.args[0].id]}.length : Int)'
+    if isinstance(e, ast.BinOp) and isinstance(e.op, (ast.Add, ast.Sub)):
+        op = '+' if isinstance(e.op, ast.Add) else '-'
+        return f'({_scan_int(e.left)} {op} {_scan_int(e.right)})'
+    raise TranslationError(f'single pass: integer expression `{ast.unparse(e)}` outside the translated subset')
+
+
+def _scan_test(e):
+    """boolean tests of the single pass."""
+    if isinstance(e, ast.BoolOp):
+        op = ' && ' if isinstance(e.op, ast.And) else ' || '
+        return '(' + op.join(_scan_test(v) for v in e.values) + ')'
+    if isinstance(e, ast.UnaryOp) and isinstance(e.op, ast.Not):
+        return f'(!{_scan_test(e.operand)})'
+    u = ast.unparse(e)
+    for py, lean in TRIGGER_MODEL.items():
+        if u == f'any([trigger in line for trigger in {py}])':
+            return f'hasAny {lean} line'
+    if u in ('self.lammps_version is None', 'self.__lammps_version is None'):
+        return '(!s.haveVersion)'
+    if u in ('self.lammps_version is not None', 'self.__lammps_version is not None'):
+        return 's.haveVersion'
+    if isinstance(e, ast.Compare) and len(e.ops) == 1:
+        l, r = e.left, e.comparators[0]
+        if isinstance(e.ops[0], ast.Eq) and isinstance(l, ast.Subscript) and isinstance(l.value, ast.Name) \
+                and l.value.id == 'line' and isinstance(l.slice, ast.Slice) and l.slice.lower is None \
+                and l.slice.step is None and isinstance(l.slice.upper, ast.Constant) \
+                and isinstance(l.slice.upper.value, int) and l.slice.upper.value >= 0 \
+                and isinstance(r, ast.Constant) and isinstance(r.value, str):
+            return f'(line.take {l.slice.upper.value} == {lean_str(r.value)}.toList)'
+        cmpops = {ast.Lt: '<', ast.LtE: '≤', ast.Gt: '>', ast.GtE: '≥', ast.Eq: '=', ast.NotEq: '≠'}
+        if type(e.ops[0]) in cmpops:
+            return f'decide ({_scan_int(l)} {cmpops[type(e.ops[0])]} {_scan_int(r)})'
+    raise TranslationError(f'single pass: test `{u}` outside the translated subset')
+
+
+def _scan_stmt(st):
+    """one bookkeeping statement -> a Lean expression of type Scan in terms of `s` (and `line`)."""
+    u = ast.unparse(st)
+    if isinstance(st, ast.Expr) and isinstance(st.value, ast.Call):
+        c = st.value
+        if isinstance(c.func, ast.Attribute) and c.func.attr == 'append' and isinstance(c.func.value, ast.Name) \
+                and c.func.value.id in SCAN_LISTS and len(c.args) == 1 and not c.keywords:
+            f = SCAN_LISTS[c.func.value.id]
+            return f'{{ s with {f} := s.{f} ++ [{_scan_int(c.args[0])}] }}'
+        if u == 'self.__read_lammps_version(line)':
+            return '{ s with versionLine := some line, haveVersion := true }'
+    if isinstance(st, ast.Assign) and u in ('is_old_version = True', 'is_old_version = False'):
+        return '{ s with isOld := %s }' % ('true' if st.value.value else 'false')
+    if isinstance(st, ast.AugAssign) and isinstance(st.target, ast.Name) and st.target.id == 'i' \
+            and isinstance(st.op, ast.Add) and isinstance(st.value, ast.Constant) and isinstance(st.value.value, int) \
+            and not isinstance(st.value.value, bool) and st.value.value >= 0:
+        return f'{{ s with i := s.i + {st.value.value} }}'
+    if isinstance(st, ast.If):
+        return (f'if {_scan_test(st.test)} then\n{_scan_block(st.body)}\nelse\n'
+                + (_scan_block(st.orelse) if st.orelse else '(s)'))
+    raise TranslationError(f'single pass: statement `{u[:80]}` outside the translated subset')
+
+
+def _indent(txt, n=2):
+    return '\n'.join(' ' * n + l for l in txt.split('\n'))
+
+
+def _scan_block(stmts):
+    """a statement list -> `(let s := …; let s := …; s)`"""
+    L = ['(']
+    for st in stmts:
+        L.append('  let s : Scan :=')
+        L.append(_indent(_scan_stmt(st), 4))
+    L.append('  s)')
+    return '\n'.join(L)
+
+
+def _filter_expr(e, side):
+    """an operand of pd.concat([...]) in the merge loop -> a Lean list expression over `merged` / `thermo`."""
+    names = {'merged_df': 'merged', 'thermo': 'thermo'}
+    if isinstance(e, ast.Name) and e.id in names:
+        return names[e.id]
+    ops = {ast.Gt: '>', ast.GtE: '≥', ast.Lt: '<', ast.LtE: '≤', ast.Eq: '=', ast.NotEq: '≠'}
+    if isinstance(e, ast.Subscript) and isinstance(e.value, ast.Name) and e.value.id in names \
+            and isinstance(e.slice, ast.Compare) and len(e.slice.ops) == 1 and type(e.slice.ops[0]) in ops:
+        x = e.value.id
+        l, r = e.slice.left, e.slice.comparators[0]
+        if ast.unparse(l) == f'{x}.Step' and isinstance(r, ast.Call) and not r.args and not r.keywords \
+                and isinstance(r.func, ast.Attribute) and r.func.attr in ('max', 'min') \
+                and isinstance(r.func.value, ast.Attribute) and r.func.value.attr == 'Step' \
+                and isinstance(r.func.value.value, ast.Name) and r.func.value.value.id in names:
+            agg = 'maxStep?' if r.func.attr == 'max' else 'minStep?'
+            y = names[r.func.value.value.id]
+            return (f'({names[x]}.filter (fun r => match {agg} step {y} with '
+                    f'| some m => decide (step r {ops[type(e.slice.ops[0])]} m) | none => false))')
+    raise TranslationError(f'flatten: operand `{ast.unparse(e)}` of pd.concat outside the translated subset')
+
+
+def _concat_expr(st):
+    """`merged_df = pd.concat([A, B], ignore_index=True)` -> Lean `A ++ B`"""
+    if not (isinstance(st, ast.Assign) and len(st.targets) == 1 and ast.unparse(st.targets[0]) == 'merged_df'
+            and isinstance(st.value, ast.Call) and ast.unparse(st.value.func) == 'pd.concat'
+            and len(st.value.args) == 1 and isinstance(st.value.args[0], ast.List) and len(st.value.args[0].elts) == 2):
+        raise TranslationError(f'flatten: `{ast.unparse(st)[:80]}` is not merged_df = pd.concat([A, B], …)')
+    kw = {k.arg: ast.unparse(k.value) for k in st.value.keywords}
+    if kw != {'ignore_index': 'True'}:
+        raise TranslationError(f'flatten: pd.concat options {kw}, expected ignore_index=True only')
+    a, b_ = st.value.args[0].elts
+    return f'{_filter_expr(a, 0)} ++ {_filter_expr(b_, 1)}'
+
+
+EXC_LEAN = {'ValueError': '.value', 'IndexError': '.index', 'KeyError': '.key', 'AssertionError': '.assert',
+            'AttributeError': '.attr', 'TypeError': '.type'}
+
+
+def _pin(stmts):
+    return [ast.unparse(st) for st in stmts]
+
+
+def _lean_strs(xs):
+    return '[' + ',\n   '.join(lean_str(x) for x in xs) + ']'
+
+
+def translate_source(src: str) -> str:
+    tree = ast.parse(src)
+    cls = {n.name: n for n in tree.body if isinstance(n, ast.ClassDef)}
+    read = get_function(src, 'read')
+    L = ['/- GENERATED by harness/props/c19.py (translate_source) from atomman/lammps/Log.py — do not edit.',
+         '   Proofs/C19_Source.lean proves every definition here equal to the hand model (gen_…_eq_model) or states what',
+         '   the normalised statements are (gen_…_pinned). -/',
+         'import Atomman.C19', 'set_option linter.unusedVariables false', 'namespace Atomman.Gen.LogSrc',
+         'open Atomman Atomman.C19', '']
+    # ---------------- Log.read: initialisation, the loop body, the closing of the last block
+    loops = [n for n in ast.walk(read) if isinstance(n, ast.For) and ast.unparse(n.target) == 'line']
+    withs = [n for n in ast.walk(read) if isinstance(n, ast.With)]
+    if len(loops) != 1 or len(withs) != 1 or loops[0] not in withs[0].body or withs[0] not in read.body:
+        raise TranslationError('Log.read: `with …:` holding the `for line in log_info:` loop not found')
+    loop, body = loops[0], withs[0].body
+    if ast.unparse(loop.iter) != 'log_info' or loop.orelse:
+        raise TranslationError('Log.read: the single pass does not iterate over log_info')
+    k_loop = body.index(loop)
+    init = {}
+    pre = [st for st in read.body[:read.body.index(withs[0])]] + body[:k_loop]
+    for st in pre:
+        if isinstance(st, ast.Assign) and len(st.targets) == 1 and isinstance(st.targets[0], ast.Name):
+            nm, v = st.targets[0].id, ast.unparse(st.value)
+            if nm in SCAN_LISTS:
+                if v != '[]' or nm in init:
+                    raise TranslationError(f'Log.read: `{nm}` does not start as one empty list')
+                init[nm] = '[]'
+            elif nm == 'i':
+                if not (isinstance(st.value, ast.Constant) and isinstance(st.value.value, int)
+                        and not isinstance(st.value.value, bool) and st.value.value >= 0) or 'i' in init:
+                    raise TranslationError('Log.read: the line counter does not start from one natural-number literal')
+                init['i'] = str(st.value.value)
+            elif nm == 'is_old_version':
+                if v not in ('True', 'False') or nm in init:
+                    raise TranslationError('Log.read: is_old_version does not start from one bool literal')
+                init[nm] = v.lower()
+    missing = [nm for nm in list(SCAN_LISTS) + ['i', 'is_old_version'] if nm not in init]
+    if missing:
+        raise TranslationError(f'Log.read: no initialisation of {missing} before the single pass')
+    L += ['/-- the bookkeeping variables as `Log.read` initialises them before the single pass (`hv`: a version is known) -/',
+          'def init (hv : Bool) : Scan :=',
+          '  { i := %s, haveVersion := hv, versionLine := none, thermoHeaders := %s, thermoFooters := %s,' % (
+              init['i'], init['thermo_headers'], init['thermo_footers']),
+          '    perfHeaders := %s, perfSims := %s, perfFooters := %s, isOld := %s }' % (
+              init['performance_headers'], init['performance_simulations'], init['performance_footers'],
+              init['is_old_version']), '']
+    stmts = list(loop.body)
+    if not stmts or ast.unparse(stmts[0]) != "line = line.decode('UTF-8')":
+        raise TranslationError("Log.read: the loop body does not start with line = line.decode('UTF-8')")
+    stmts = stmts[1:]
+    if not stmts or ast.unparse(stmts[0]) != 'if len(line.split()) == 0:\n    continue':
+        raise TranslationError('Log.read: `if len(line.split()) == 0: continue` is not the first test of the loop body')
+    stmts = stmts[1:]
+    if any(isinstance(n, (ast.Continue, ast.Break, ast.Return)) for st in stmts for n in ast.walk(st)):
+        raise TranslationError('Log.read: continue / break / return inside the bookkeeping')
+    L += ['/-- the body of `for line in log_info:` statement by statement, in the order of the source -/',
+          'def step (s : Scan) (line : Str) : Scan :=',
+          '  if isBlank line then s else']
+    for st in stmts:
+        L.append('  let s : Scan :=')
+        L.append(_indent(_scan_stmt(st), 4))
+    L += ['  s', '']
+    # after the loop, up to the table loop
+    zips = [n for n in body if isinstance(n, ast.For) and ast.unparse(n.iter) == 'zip(thermo_headers, thermo_footers)']
+    if len(zips) != 1:
+        raise TranslationError('Log.read: table loop not found')
+    k_zip = body.index(zips[0])
+    fin, j_before = [], False
+    for st in body[k_loop + 1:k_zip]:
+        u = ast.unparse(st)
+        if u == 'log_info.seek(0)':
+            continue
+        if u == 'j = len(self.simulations)':
+            j_before = True
+            continue
+        fin.append(st)
+    L += ['/-- the statements between the single pass and the table loop (the last, unterminated block is closed) -/',
+          'def finish (s : Scan) : Scan :=']
+    for st in fin:
+        L.append('  let s : Scan :=')
+        L.append(_indent(_scan_stmt(st), 4))
+    L += ['  s', '',
+          '/-- `j = len(self.simulations)` is taken before the table loop appends the new records -/',
+          f'def jBeforeTableLoop : Bool := {"true" if j_before else "false"}', '']
+    rest = body[k_zip + 1:]
+    L += ['/-- the statements of `Log.read` after the table loop (normalised): the timing tables are read footer by',
+          '    footer and stored in record `performance_simulations[i] + j` -/',
+          'def perfLoop : List String :=', '  ' + _lean_strs(_pin(rest)), '']
+    rp = get_function(src, '__read_performance')
+    L += ['/-- `__read_performance` (normalised statements; pandas calls, modelled by readPerfNew / readPerfOld) -/',
+          'def readPerformance : List String :=', '  ' + _lean_strs(_pin(strip_doc(rp.body))), '']
+    # ---------------- imports: where uber_open_rmode comes from
+    imp = [ast.unparse(n) for n in tree.body if isinstance(n, ast.ImportFrom)
+           and any(a.name == 'uber_open_rmode' for a in n.names)]
+    tools = ast.parse(cm.source('atomman/tools/__init__.py'))
+    timp = [f'from {"." * n.level}{n.module or ""} import uber_open_rmode' for n in tools.body
+            if isinstance(n, ast.ImportFrom) and any(a.name == 'uber_open_rmode' and a.asname is None for a in n.names)]
+    tdefs = [n.name for n in ast.walk(tools) if isinstance(n, (ast.FunctionDef, ast.ClassDef)) and n.name == 'uber_open_rmode']
+    tassign = [ast.unparse(n) for n in ast.walk(tools) if isinstance(n, ast.Assign)
+               and any(ast.unparse(t) == 'uber_open_rmode' for t in n.targets)]
+    L += ['/-- where the input decision (text / path / bytes / stream) is made: the import in Log.py and what',
+          '    atomman/tools/__init__.py binds the name to -/',
+          'def openerImports : List String :=', '  ' + _lean_strs(imp + timp + tdefs + tassign), '']
+    # ---------------- Simulation
+    sim = cls.get('Simulation')
+    if sim is None:
+        raise TranslationError('class Simulation not found')
+    fns = {}
+    for n in sim.body:
+        if isinstance(n, ast.FunctionDef):
+            deco = [ast.unparse(d) for d in n.decorator_list]
+            fns[(n.name, tuple(deco))] = n
+
+    def setter(attr, field, leanfield):
+        fn = fns.get((attr, (f'{attr}.setter',)))
+        if fn is None or [a.arg for a in fn.args.args] != ['self', 'value']:
+            raise TranslationError(f'Simulation.{attr} setter not found')
+        b_ = strip_doc(fn.body)
+        want0 = (f'if isinstance(value, pd.DataFrame):\n    self.{field} = value\nelse:\n'
+                 f'    self.{field} = pd.DataFrame(value)')
+        if len(b_) != 2 or ast.unparse(b_[0]) != want0:
+            raise TranslationError(f'Simulation.{attr} setter: the value is not stored in self.{field} as given / as a DataFrame')
+        g = b_[1]
+        if not (isinstance(g, ast.If) and not g.orelse and len(g.body) == 1 and isinstance(g.test, ast.Compare)
+                and len(g.test.ops) == 1 and isinstance(g.test.ops[0], ast.NotIn)
+                and isinstance(g.test.left, ast.Constant) and isinstance(g.test.left.value, str)
+                and ast.unparse(g.test.comparators[0]) in ('self.keys()', 'self.__keys')
+                and isinstance(g.body[0], ast.Expr) and isinstance(g.body[0].value, ast.Call)
+                and ast.unparse(g.body[0].value.func) == 'self.__keys.append' and len(g.body[0].value.args) == 1
+                and isinstance(g.body[0].value.args[0], ast.Constant) and isinstance(g.body[0].value.args[0].value, str)):
+            raise TranslationError(f'Simulation.{attr} setter: key bookkeeping `{ast.unparse(g)[:80]}` outside the translated subset')
+        tested, added = g.test.left.value, g.body[0].value.args[0].value
+        return [f'/-- `Simulation.{attr}` setter -/',
+                f'def set_{attr} (s : SimObj) (v : {"Table" if leanfield == "thermo" else "Perf"}) : SimObj :=',
+                f'  let s : SimObj := {{ s with {leanfield} := some v }}',
+                f'  if !(s.keys.contains {lean_str(tested)}) then {{ s with keys := s.keys ++ [{lean_str(added)}] }} else s', '']
+    L += setter('thermo', '__thermo', 'thermo') + setter('performance', '__performance', 'perf')
+    for attr, field in (('thermo', '__thermo'), ('performance', '__performance')):
+        g = fns.get((attr, ('property',)))
+        if g is None or _pin(strip_doc(g.body)) != [f'return self.{field}']:
+            raise TranslationError(f'Simulation.{attr} getter does not return self.{field}')
+    k = fns.get(('keys', ()))
+    if k is None or _pin(strip_doc(k.body)) != ['return tuple(self.__keys)']:
+        raise TranslationError('Simulation.keys() does not return tuple(self.__keys)')
+    ini = fns.get(('__init__', ()))
+    if ini is None or [a.arg for a in ini.args.args] != ['self', 'thermo', 'performance'] \
+            or [ast.unparse(d) for d in ini.args.defaults] != ['None', 'None']:
+        raise TranslationError('Simulation.__init__(self, thermo=None, performance=None) not found')
+    ib = strip_doc(ini.body)
+    start = {'self.__thermo': 'None', 'self.__performance': 'None', 'self.__keys': '[]'}
+    got = {}
+    L += ['/-- `Simulation.__init__`: statement by statement -/',
+          'def simInit (thermo : Option Table) (performance : Option Perf) : SimObj :=',
+          '  let s : SimObj := { thermo := none, perf := none, keys := [] }']
+    for st in ib:
+        u = ast.unparse(st)
+        if isinstance(st, ast.Assign) and len(st.targets) == 1 and ast.unparse(st.targets[0]) in start:
+            if got is None:
+                raise TranslationError('Simulation.__init__: a field is reset after a setter ran')
+            got[ast.unparse(st.targets[0])] = ast.unparse(st.value)
+            continue
+        ok = False
+        for attr in ('thermo', 'performance'):
+            if u == f'if {attr} is not None:\n    self.{attr} = {attr}':
+                if got != start and got is not None:
+                    raise TranslationError('Simulation.__init__: setters run before the fields exist')
+                got = None
+                L.append(f'  let s : SimObj := match {attr} with | some v => set_{attr} s v | none => s')
+                ok = True
+        if not ok:
+            raise TranslationError(f'Simulation.__init__: statement `{u[:80]}` outside the translated subset')
+    L += ['  s', '']
+    gi = fns.get(('__getitem__', ()))
+    if gi is None:
+        raise TranslationError('Simulation.__getitem__ not found')
+    gb = strip_doc(gi.body)
+    if len(gb) != 2 or not isinstance(gb[0], ast.If) or gb[0].orelse or _pin(gb[0].body) != ['raise KeyError(key)'] \
+            or ast.unparse(gb[1]) != 'return getattr(self, key)':
+        raise TranslationError('Simulation.__getitem__: not `if <test>: raise KeyError(key)` + `return getattr(self, key)`')
+    t = ast.unparse(gb[0].test)
+    if t in ('key not in self.keys()', 'key not in self.__keys'):
+        test = '!(s.keys.contains key)'
+    elif t in ('key in self.keys()', 'key in self.__keys'):
+        test = 's.keys.contains key'
+    else:
+        raise TranslationError(f'Simulation.__getitem__: test `{t}` outside the translated subset')
+    L += ['/-- `Simulation.__getitem__`: does it raise KeyError -/',
+          f'def getItemRefuses (s : SimObj) (key : String) : Bool := {test}', '']
+    # ---------------- flatten
+    fl = get_function(src, 'flatten')
+    fb = strip_doc(fl.body)
+    sim_loops = [n for n in fb if isinstance(n, ast.For) and ast.unparse(n.iter) == 'simulations[1:]'
+                 and ast.unparse(n.target) == 'sim']
+    if len(sim_loops) != 1:
+        raise TranslationError('flatten: merge loop `for sim in simulations[1:]` not found at function level')
+    ml = sim_loops[0]
+    chain = [st for st in ml.body if isinstance(st, ast.If) and ast.unparse(st.test).startswith('style ==')]
+    if len(chain) != 1:
+        raise TranslationError('flatten: one `if style == … elif … else` chain expected in the merge loop')
+    if _pin(ml.body[:ml.body.index(chain[0])]) != ['thermo = sim.thermo', 'if thermo is None:\n    continue']:
+        raise TranslationError('flatten: the merge loop does not start with thermo = sim.thermo / if thermo is None: continue')
+    L += ['section', 'variable {α : Type} (step : α → Int)',
+          '/-- the style dispatch of the merge loop, branch by branch in the order of the source -/',
+          'def merge (style : Str) (merged thermo : List α) : Except Err (List α) :=']
+    node = chain[0]
+    n_br = 0
+    while True:
+        t = node.test
+        if not (isinstance(t, ast.Compare) and len(t.ops) == 1 and isinstance(t.ops[0], ast.Eq)
+                and ast.unparse(t.left) == 'style' and isinstance(t.comparators[0], ast.Constant)
+                and isinstance(t.comparators[0].value, str)):
+            raise TranslationError(f'flatten: style test `{ast.unparse(t)}` outside the translated subset')
+        concat = [st for st in node.body if isinstance(st, ast.Assign) and ast.unparse(st.targets[0]) == 'merged_df']
+        others = [st for st in node.body if st not in concat]
+        if len(concat) != 1 or node.body[0] is not concat[0]:
+            raise TranslationError('flatten: a style branch does not start with one merged_df = pd.concat(…)')
+        for st in others:
+            if not (isinstance(st, ast.For) and ast.unparse(st) == 'for key in thermo.keys():\n    dtypes[key] = thermo[key].dtype'):
+                raise TranslationError(f'flatten: statement `{ast.unparse(st)[:80]}` in a style branch outside the translated subset')
+        L.append(f'  {"if" if n_br == 0 else "else if"} style == {lean_str(t.comparators[0].value)}.toList then '
+                 f'.ok ({_concat_expr(concat[0])})')
+        n_br += 1
+        if len(node.orelse) == 1 and isinstance(node.orelse[0], ast.If):
+            node = node.orelse[0]
+            continue
+        if len(node.orelse) == 1 and isinstance(node.orelse[0], ast.Raise) and isinstance(node.orelse[0].exc, ast.Call) \
+                and ast.unparse(node.orelse[0].exc.func) in EXC_LEAN:
+            L.append(f'  else .error {EXC_LEAN[ast.unparse(node.orelse[0].exc.func)]}')
+            break
+        raise TranslationError('flatten: the style chain does not end in `else: raise <Error>(…)`')
+    L += ['end', '']
+    L += ['/-- what follows the style dispatch inside the merge loop (normalised statements): the dtype repair, which must',
+          '    leave every value as it is (checked by the oracle on the real code) -/',
+          'def afterMerge : List String :=', '  ' + _lean_strs(_pin(ml.body[ml.body.index(chain[0]) + 1:])), '']
+    # the Step assertion
+    asserts = [n for n in fb if isinstance(n, ast.For) and ast.unparse(n.iter) == 'simulations' and ast.unparse(n.target) == 'sim']
+    if len(asserts) != 1 or len(asserts[0].body) != 1 or not isinstance(asserts[0].body[0], ast.If) \
+            or asserts[0].body[0].orelse or len(asserts[0].body[0].body) != 1 \
+            or not isinstance(asserts[0].body[0].body[0], ast.Assert):
+        raise TranslationError('flatten: the Step assertion loop `for sim in simulations: if …: assert …` not found')
+    g = asserts[0].body[0]
+
+    def tab_test(e):
+        if isinstance(e, ast.BoolOp):
+            op = ' && ' if isinstance(e.op, ast.And) else ' || '
+            return '(' + op.join(tab_test(v) for v in e.values) + ')'
+        u = ast.unparse(e)
+        if u == 'sim.thermo is not None':
+            return 'true'
+        cmpops = {ast.Lt: '<', ast.LtE: '≤', ast.Gt: '>', ast.GtE: '≥', ast.Eq: '=', ast.NotEq: '≠'}
+        if isinstance(e, ast.Compare) and len(e.ops) == 1 and type(e.ops[0]) in cmpops \
+                and ast.unparse(e.left) == 'len(sim.thermo)' and isinstance(e.comparators[0], ast.Constant) \
+                and isinstance(e.comparators[0].value, int) and not isinstance(e.comparators[0].value, bool) \
+                and e.comparators[0].value >= 0:
+            return f'decide (t.rows.length {cmpops[type(e.ops[0])]} {e.comparators[0].value})'
+        if isinstance(e, ast.Compare) and len(e.ops) == 1 and isinstance(e.ops[0], (ast.In, ast.NotIn)) \
+                and isinstance(e.left, ast.Constant) and isinstance(e.left.value, str) \
+                and ast.unparse(e.comparators[0]) in ('sim.thermo', 'sim.thermo.columns', 'sim.thermo.keys()'):
+            c = f't.cols.contains {lean_str(e.left.value)}.toList'
+            return c if isinstance(e.ops[0], ast.In) else f'(!{c})'
+        raise TranslationError(f'flatten: test `{u}` of the Step assertion outside the translated subset')
+    L += ['/-- the Step assertion: is a selected table refused (guard holds and the asserted test fails) -/',
+          f'def assertFails (t : Table) : Bool := {tab_test(g.test)} && !({tab_test(g.body[0].test)})', '']
+    # order of the top-level statements of flatten and its return value
+    kinds = []
+    for st in fb:
+        u = ast.unparse(st)
+        if st is asserts[0]:
+            kinds.append('assert-loop')
+        elif st is ml:
+            kinds.append('merge-loop')
+        elif u in ('simulations = self.simulations[firstindex:lastindex]', 'merged_df = simulations[0].thermo',
+                   'if merged_df is not None:\n    merged_df = merged_df.copy()', 'dtypes = {}',
+                   'return Simulation(thermo=merged_df)'):
+            kinds.append(u)
+        else:
+            raise TranslationError(f'flatten: top-level statement `{u[:80]}` outside the translated subset')
+    L += ['/-- the top-level statements of `flatten` in order (selection, assertion, first record, copy, loop, result) -/',
+          'def flattenOrder : List String :=', '  ' + _lean_strs(kinds), '']
+    L.append('end Atomman.Gen.LogSrc')
+    return '\n'.join(L) + '\n'
+
+
 def translate():
-    c = extract_constants(cm.source('atomman/lammps/Log.py'))
+    src_text = cm.source('atomman/lammps/Log.py')
+    c = extract_constants(src_text)
     L = ['/- GENERATED by harness/props/c19.py from atomman/lammps/Log.py — do not edit. -/',
          'namespace Atomman.Gen.Log', '']
     for py, lean in TRIGGER_NAMES.items():
@@ -406,9 +878,14 @@ def translate():
     L.append(f'def firstKeep (step mx : Int) : Bool := decide (step {c["first_keep_op"]} mx)')
     L.append('/-- `merged_df[merged_df.Step ? thermo.Step.min()]` (style last) -/')
     L.append(f'def lastKeep (step mn : Int) : Bool := decide (step {c["last_keep_op"]} mn)')
+    L.append('/-- defaults of the signatures: `read(self, log_info, append=…)`, `flatten(self, style=…, firstindex=None,')
+    L.append('    lastindex=None)`; does `Log.__init__(self, log_info=None)` read what it is given -/')
+    L.append(f'def readAppendDefault : Bool := {b(c["read_append_default"])}')
+    L.append(f'def flattenStyleDefault : String := {lean_str(c["flatten_style_default"])}')
+    L.append(f'def ctorReads : Bool := {b(c["ctor_reads"])}')
     L.append('')
     L.append('end Atomman.Gen.Log')
-    return {'LogTriggers': '\n'.join(L) + '\n'}
+    return {'LogTriggers': '\n'.join(L) + '\n', 'LogSource': translate_source(src_text)}
 
 
 # ----------------------------------------------------------------------------------------
@@ -441,6 +918,21 @@ THEOREMS = [
     'C19.flatten_refuses_missing_step', 'C19.flatten_refuses_empty', 'C19.flatten_refuses_style', 'C19.flatten_single',
     # runs with different thermo keywords: columns of the merged table = union in order of first appearance, NaN fill
     'C19.flatten_columns', 'C19.mem_unionCols', 'C19.nodup_unionCols', 'C19.flatten_rows_width',
+    # round 6 — source tie (Proofs/C19_Source.lean): the statements of Log.py regenerated as Lean definitions
+    # (Generated/LogSource.lean) are the hand model (…_eq_model) / are these normalised statements (…_pinned)
+    'C19.gen_init_eq_model', 'C19.gen_step_eq_model', 'C19.gen_scan_eq_model', 'C19.gen_finish_eq_model',
+    'C19.gen_tables_eq_model', 'C19.gen_j_eq_model', 'C19.gen_perfLoop_pinned', 'C19.gen_readPerformance_pinned',
+    'C19.gen_opener_pinned', 'C19.gen_setThermo_eq_model', 'C19.gen_setPerf_eq_model', 'C19.gen_simInit_eq_model',
+    'C19.gen_getItem_eq_model', 'C19.gen_merge_eq_model', 'C19.gen_assertFails_eq_model',
+    'C19.gen_flattenOrder_pinned', 'C19.gen_afterMerge_pinned', 'C19.gen_defaults_pinned',
+    # round 6 — the Simulation records as objects (keys, sim[key], setters)
+    'C19.record_keys', 'C19.record_getitem_iff', 'C19.setter_again', 'C19.setter_keys_nodup',
+    'C19.flatten_result_object',
+    # round 6 — the merge loop as coded (style dispatch inside the loop) and its refusals, exactly
+    'C19.flattenStyle_first', 'C19.flattenStyle_last', 'C19.flattenStyle_all', 'C19.flattenStyle_refuses_iff',
+    'C19.flattenStyle_single',
+    # round 6 — call forms with arguments left out, end-to-end statements
+    'C19.call_defaults', 'C19.ctor_render', 'C19.ctor_render_text', 'C19.read_then_flatten_all',
 ]
 PARTIAL = {
     'timing breakdown': 'read_breakdown / read_breakdown_old (read() returns and the records are right) cover the `MPI task '
@@ -1106,6 +1598,27 @@ def impl_perf(df):
 
 
 _GETTER_ORDER = [0]
+PROBE_KEYS = ['thermo', 'performance', 'Step']
+
+
+def _probe_getitem(sim):
+    """for each probe key: '1' if sim[key] raises KeyError, '0' if it hands out the attribute the key names, else a
+    description of what happened instead."""
+    bits = ''
+    for k in PROBE_KEYS:
+        try:
+            v = sim[k]
+        except KeyError:
+            bits += '1'
+            continue
+        except Exception as e:  # noqa
+            return f'sim[{k!r}] raised {type(e).__name__}'
+        if v is not getattr(sim, k, None):
+            return f'sim[{k!r}] is not sim.{k}'
+        bits += '0'
+    return bits
+
+
 
 
 def impl_state(log, record=True):
@@ -1128,7 +1641,9 @@ def impl_state(log, record=True):
             sims = log.simulations
             got['sims'] = [(impl_table(s.thermo, record), impl_perf(s.performance)) for s in sims]
             got['keys'] = [list(s.keys()) for s in sims]
-    return {'version': got['version'], 'date': got['date'], 'sims': got['sims'], 'keys': got['keys']}
+            got['refuses'] = [_probe_getitem(s) for s in sims]
+    return {'version': got['version'], 'date': got['date'], 'sims': got['sims'], 'keys': got['keys'],
+            'refuses': got['refuses']}
 
 
 EXC_CLASS = {'ParserError': 'parser', 'EmptyDataError': 'parser', 'ValueError': 'value', 'IndexError': 'index',
@@ -1191,6 +1706,14 @@ def _parse_table(T):
     return canon_table(cols, rows)
 
 
+def _parse_keys(T):
+    n = int(T.next()[1:])
+    keys = [dec(T.next()) for _ in range(n)]
+    x = T.next()
+    assert x[0] == 'X'
+    return keys, x[1:]
+
+
 def parse_state(reply: str):
     """`ok <state>` of the driver -> same shape as impl_state."""
     T = _Toks(reply)
@@ -1201,6 +1724,7 @@ def parse_state(reply: str):
     date = None if d == 'Dnone' else tuple(int(x) for x in d[1:].split('-'))
     n = int(T.next()[1:])
     sims = []
+    keys, refuses = [], []
     for _ in range(n):
         tab = _parse_table(T)
         p = T.next()
@@ -1214,16 +1738,20 @@ def parse_state(reply: str):
                 rows.append([sec] + [dec(T.next()) for _ in range(nc)])
             perf = (cols, rows)
         sims.append((tab, perf))
+        kk, xx = _parse_keys(T)
+        keys.append(kk)
+        refuses.append(xx)
     assert T.done(), reply[:200]
-    return {'version': version, 'date': date, 'sims': sims}
+    return {'version': version, 'date': date, 'sims': sims, 'keys': keys, 'refuses': refuses}
 
 
 def parse_table_reply(reply: str):
     T = _Toks(reply)
     assert T.next() == 'ok'
     t = _parse_table(T)
+    keys = _parse_keys(T)[0] if not T.done() else None
     assert T.done()
-    return t
+    return t, keys
 
 
 def state_diff(impl, model):
@@ -1243,6 +1771,15 @@ def state_diff(impl, model):
             return f'simulation {k}: performance table {"present" if pi is not None else "absent"} != model'
         if pi is not None and not table_equal(pi, pm):
             return f'simulation {k}: performance table differs: impl {pi} model {pm}'
+    if 'keys' in impl and 'keys' in model:
+        for k, (a, b) in enumerate(zip(impl['keys'], model['keys'])):
+            if a != b:
+                return f'simulation {k}: keys() {a} != model {b}'
+    if 'refuses' in impl and 'refuses' in model:
+        for k, (a, b) in enumerate(zip(impl['refuses'], model['refuses'])):
+            if a != b:
+                return (f'simulation {k}: sim[key] for key in {PROBE_KEYS}: {a} != model {b} (1 = KeyError, 0 = the '
+                        f'attribute)')
     return None
 
 
@@ -1541,7 +2078,7 @@ def _input(files, text, mode):
     raise ValueError(mode)
 
 
-EMPTY_STATE = {'version': None, 'date': None, 'sims': [], 'keys': []}
+EMPTY_STATE = {'version': None, 'date': None, 'sims': [], 'keys': [], 'refuses': []}
 
 
 def _scribble(df):
@@ -1719,7 +2256,7 @@ def run_impl(logs, ops, files):
                         if j is not None:
                             aliased = (f'the table returned by flatten is not a new one: after the caller overwrote the '
                                        f'returned table in place, record {j} of the log has columns {after2[j][0]}')
-                    out.append(res + (changed, aliased, keysnote))
+                    out.append(res + (changed, aliased, keysnote, list(sim.keys())))
             except Exception as e:  # noqa
                 out.append(('err', exc_class(e), f'{type(e).__name__}: {str(e)[:200]}'))
                 if op[0] != 'flatten':      # a failed read leaves the object half-updated: stop the history
@@ -1760,7 +2297,9 @@ def model_requests(logs, ops):
             text = logs[k]['text']
             if op[0] == 'ctor':
                 req.append('new')
-            a = '1' if _appends(append) else '0'
+            # an argument left out goes to the model as left out: the defaults are the model's (regenerated from the
+            # signatures), not the harness's
+            a = '-' if append is None else ('1' if _appends(append) else '0')
             if mode in TEXT_STREAM_MODES:
                 where.append(None)
             elif mode in STREAM_MODES:
@@ -1779,10 +2318,10 @@ def model_requests(logs, ops):
                 where.append(len(req) - 1)
             elif mode in ('text', 'bytes'):
                 # the whole text as one token: the model splits it into lines itself (splitLines: at \n only)
-                req.append(f'readt {a} ' + enc(text))
+                req.append((f'readt {a} ' if op[0] == 'read' else 'ctort ') + enc(text))
                 where.append(len(req) - 1)
             else:
-                req.append(f'read {a} ' + ' '.join(enc(l) for l in text.split('\n')))
+                req.append((f'read {a} ' if op[0] == 'read' else 'ctor ') + ' '.join(enc(l) for l in text.split('\n')))
                 where.append(len(req) - 1)
         elif op[0] == 'droprow':
             req.append(f'droprow {op[1]}')
@@ -1790,7 +2329,7 @@ def model_requests(logs, ops):
             where.append(len(req) - 1)
         else:
             f = lambda x: 'none' if x is None else str(x)  # noqa
-            req.append(f'flatten {enc(flatten_style(op))} {f(op[2])} {f(op[3])}')
+            req.append(f'flatten {"-" if op[1] is None else enc(op[1])} {f(op[2])} {f(op[3])}')
             where.append(len(req) - 1)
     return req, where
 
@@ -1837,7 +2376,9 @@ def compare_history(logs, ops, impl_out, replies, where):
                 return k, res[3]
             if len(res) > 4 and res[4]:
                 return k, res[4]
-            mt = parse_table_reply(rep)
+            mt, mkeys = parse_table_reply(rep)
+            if len(res) > 5 and mkeys is not None and res[5] != mkeys:
+                return k, f'the Simulation returned by flatten has keys {res[5]}, model {mkeys}'
             if res[1][0] != mt[0]:
                 return k, f'flatten columns {res[1][0]} != model {mt[0]}'
             if not table_equal(res[1], mt):
